@@ -601,7 +601,11 @@ func (e *Env) evalCall(n *ECall) (cval, error) {
 		if n.Fn == "last" {
 			return cval{t: c.getHeap(e.st, "Last_"+sanitize(s.V)), typ: intT}, nil
 		}
-		return cval{t: c.getHeap(e.st, traceKey(s.V)), typ: intT}, nil
+		base := IntLit(0)
+		if c.entry != nil {
+			base = c.getHeap(c.entry, traceKey(s.V))
+		}
+		return cval{t: sub(c.getHeap(e.st, traceKey(s.V)), base), typ: intT}, nil
 	case "clock":
 		c.R.Heap("Clock", "Int")
 		return cval{t: c.getHeap(e.st, "Clock"), typ: intT}, nil
